@@ -17,5 +17,11 @@ PathCases(sizes, hiers) ==
   UNION { { [kinds |-> ks, order |-> o, hier |-> h, vec |-> ve, req |-> r] :
               ks \in [1..nn -> {"L", "S"}], o \in Orders(nn), h \in hiers, ve \in BOOLEAN, r \in UNION { Requests(nn, hh) : hh \in hiers } }
           : nn \in sizes }
+(* (N,n) inputs: one wildcard pattern, vectorised, nodes of two kinds that share the target operator, interleaved *)
+InputCases(sizes, hiers) ==
+  UNION { UNION { { [kinds |-> ks, order |-> o, hier |-> h, vec |-> TRUE, req |-> Req("input", <<p>>, "x")] :
+                      ks \in [1..nn -> {"L", "S"}], o \in Orders(nn), p \in Patterns(nn, h) }
+                  : h \in hiers }
+          : nn \in sizes }
 WellFormedCase(c) == \A i \in 1..Len(c.req.pats) : c.req.pats[i] = <<"all">> \/ Len(c.req.pats[i]) = c.hier + 1
 =============================================================================
